@@ -2,7 +2,7 @@
 references, and iterator values, with the std operations the crate's operators use.  Objective values are
 opaque symbols related only by a scenario-supplied weak ordering (a finite set of orderings), so every
 comparison is decided and nothing else about them is known."""
-from absint import Agg, HRef, Ref, Sym, TOP, some, NONE, Event
+from absint import Agg, HRef, Ref, Sym, TOP, some, NONE, Event, href_get, href_set
 
 
 import os as _os
@@ -73,12 +73,7 @@ def view_set(interp, v, new):
 def store_ref(interp, env, r, val):
     """write through an element / local reference"""
     if isinstance(r, HRef):
-        items = list(heap_get(interp, r.vid))
-        if r.idx < len(items):
-            items[r.idx] = val
-            heap_set(interp, r.vid, items)
-            return True
-        return False
+        return href_set(interp, env, r, val)
     if isinstance(r, Ref):
         interp.write_ref(env, r, val)
         return True
@@ -100,8 +95,7 @@ def load(interp, env, v, depth=0):
         if isinstance(v, Ref):
             v = interp.read_ref(env, v)
         elif isinstance(v, HRef):
-            items = heap_get(interp, v.vid)
-            v = items[v.idx] if v.idx < len(items) else TOP
+            v = href_get(interp, env, v)
         else:
             return v
     return v
@@ -112,8 +106,7 @@ def load1(interp, env, v):
     if isinstance(v, Ref):
         return interp.read_ref(env, v)
     if isinstance(v, HRef):
-        items = heap_get(interp, v.vid)
-        return items[v.idx] if v.idx < len(items) else TOP
+        return href_get(interp, env, v)
     return v
 
 
